@@ -41,6 +41,8 @@ fn profile() -> Profile<'static> {
         end_weights: [2, 6, 9, 2, 28, 4, 2, 1, 4],
         p_no_return_site: 30,
         p_pool_sub_name: 20,
+        dup_names: &[],
+        p_dup: 0,
     }
 }
 
